@@ -113,8 +113,11 @@ func (c *syncMap) ExpireAll(ctx context.Context) {
 	c.data.Range(func(key, value interface{}) bool {
 		cacheEntry := value.(*TraitEntry) //nolint // Panic on type assertion failure is fine here.
 
-		cacheEntry.E = startTS
-		cnt++
+		// Entry is replaced and not updated in place, it can be in use by concurrent readers.
+		expired := &TraitEntry{K: cacheEntry.K, V: cacheEntry.V, E: startTS, C: atomic.LoadInt64(&cacheEntry.C)}
+		if c.replaceEntry(key, cacheEntry, expired) {
+			cnt++
+		}
 
 		return true
 	})
